@@ -75,3 +75,19 @@ pub fn splitmix64(x: u64) -> u64 {
     z = (z ^ (z >> 27)).wrapping_mul(0x94D049BB133111EB);
     z ^ (z >> 31)
 }
+
+/// Deterministic pseudo-entropy for enumerated cases (a pure function of tag and index).
+pub fn det_entropy(tag: &str, j: u64, len: usize) -> Vec<u8> {
+    let mut h: u64 = 0xcbf29ce484222325;
+    for b in tag.bytes() {
+        h = (h ^ b as u64).wrapping_mul(0x100000001b3);
+    }
+    let mut x = splitmix64(h ^ splitmix64(j));
+    let mut out = Vec::with_capacity(len);
+    while out.len() < len {
+        x = splitmix64(x);
+        out.extend_from_slice(&x.to_le_bytes());
+    }
+    out.truncate(len);
+    out
+}
